@@ -45,7 +45,7 @@ ASSUMPTIONS = [
     "transform_constant is modelled at element granularity; dense => mixed_radix_sorted is proved for positive steps "
     "(C12_dense_mixed_radix_sorted) and still checked on every generated layout",
     "numpy argsort is stable on the short arrays that occur (insertion sort below 17 elements)",
-    "subviews, globals, dynamic shapes and dart operations are outside the model (IR generator does not emit them)",
+    "dynamic shapes and dart operations are outside the model (IR generator does not emit them); globals read through subviews: L2 probe on the real pass only, no Coq model",
 ]
 
 CLASS_ORDER = "output_use_before_first_input_use"
@@ -632,6 +632,148 @@ def run_transpose_pass(d0, d1, vals):
     return [int(x) for x in consts[0].value.get_values()]
 
 # ==========================================================================================
+# L2 probe: memref.global read through subviews (ApplyLayoutCastSubviewGlobal / ApplyLayoutCastGlobal)
+# ==========================================================================================
+class _NoVerdict(Exception):
+    pass
+
+
+def _type_addr(ty, idx):
+    """element address of logical index idx in a buffer of memref type ty (i8: element = byte)"""
+    from xdsl.dialects import builtin
+    from snaxc.dialects.tsl import TiledStridedLayoutAttr
+    lay = ty.layout
+    shape = ty.get_shape()
+    if isinstance(lay, builtin.NoneAttr):
+        a = 0
+        for k, s in zip(idx, shape):
+            a = a * s + k
+        return a
+    if isinstance(lay, TiledStridedLayoutAttr):
+        t = lay.data
+        if t.is_dynamic() or t.offset is None:
+            raise _NoVerdict("dynamic tsl")
+        a = t.offset
+        for k, ts in zip(idx, t.tstrides):
+            rem = k
+            for s in reversed(ts.strides):
+                a += (rem % s.bound) * s.step
+                rem //= s.bound
+        return a
+    if isinstance(lay, builtin.StridedLayoutAttr):
+        off = lay.get_offset()
+        st = lay.get_strides()
+        if off is None or any(x is None for x in st):
+            raise _NoVerdict("dynamic strided")
+        return off + sum(k * x for k, x in zip(idx, st))
+    raise _NoVerdict("layout " + str(lay))
+
+
+def _resolve_global_view(val):
+    """val -> (global symbol name, function logical index -> element address in the global's buffer)"""
+    from xdsl.dialects import memref
+    from xdsl.ir import OpResult
+    if not isinstance(val, OpResult):
+        raise _NoVerdict("block argument")
+    op = val.op
+    if isinstance(op, memref.GetGlobalOp):
+        ty = val.type
+        return op.name_.string_value(), (lambda idx: _type_addr(ty, idx))
+    if isinstance(op, memref.SubviewOp):
+        offs = [int(x) for x in op.static_offsets.iter_values()]
+        strs = [int(x) for x in op.static_strides.iter_values()]
+        if len(op.offsets) or len(op.sizes) or len(op.strides):
+            raise _NoVerdict("dynamic subview")
+        g, f = _resolve_global_view(op.source)
+        return g, (lambda idx: f([o + k * s for o, k, s in zip(offs, idx, strs)]))
+    raise _NoVerdict(op.name)
+
+
+def gen_global_case(rng):
+    r0 = rng.choice([0, 8])
+    second = rng.choice(["none", "none", "subview", "subview", "whole", "cast_subview"])
+    vals = list(range(256))
+    rng.shuffle(vals)
+    return {"r0": r0, "second": second, "vals": [v - 128 for v in vals]}
+
+
+def global_case_text(c):
+    rows = ", ".join("[" + ", ".join(str(c["vals"][i * 16 + j]) for j in range(16)) + "]" for i in range(16))
+    sv = "memref<8x16xi8, strided<[16, 1], offset: %d>>"
+    tsl = "memref<8x16xi8, #tsl.tsl<[8] -> (8), [2, 8] -> (64, 1)>>"
+    r0 = c["r0"]
+    o0 = 8 - r0
+    lines = [
+        '"memref.global"() <{alignment = 64 : i64, constant, initial_value = dense<[' + rows + ']> : tensor<16x16xi8>, '
+        'sym_name = "global", sym_visibility = "private", type = memref<16x16xi8>}> : () -> ()',
+        "func.func @f() {",
+        "  %0 = memref.get_global @global : memref<16x16xi8>",
+        f"  %1 = memref.subview %0[{r0}, 0] [8, 16] [1, 1] : memref<16x16xi8> to {sv % (16 * r0)}",
+        f'  %2 = "snax.layout_cast"(%1) : ({sv % (16 * r0)}) -> {tsl}',
+        f'  "test.op"(%2) {{tag = 1 : i32}} : ({tsl}) -> ()',
+    ]
+    if c["second"] == "subview":
+        lines += [f"  %3 = memref.subview %0[{o0}, 0] [8, 16] [1, 1] : memref<16x16xi8> to {sv % (16 * o0)}",
+                  f'  "test.op"(%3) {{tag = 2 : i32}} : ({sv % (16 * o0)}) -> ()']
+    elif c["second"] == "whole":
+        lines += ['  "test.op"(%0) {tag = 3 : i32} : (memref<16x16xi8>) -> ()']
+    elif c["second"] == "cast_subview":
+        lines += [f"  %3 = memref.subview %0[{o0}, 0] [8, 16] [1, 1] : memref<16x16xi8> to {sv % (16 * o0)}",
+                  f'  %4 = "snax.layout_cast"(%3) : ({sv % (16 * o0)}) -> {tsl}',
+                  f'  "test.op"(%4) {{tag = 4 : i32}} : ({tsl}) -> ()']
+    lines += ["  func.return", "}"]
+    return "\n".join(lines) + "\n"
+
+
+def check_global_case(c):
+    """Runs the real realize-memref-casts pass; every test.op operand that is still a (sub)view of a global must
+    read, at every logical index, the value the original global held there.  Returns (failures, consumers decided)."""
+    from xdsl.dialects import memref
+    from snaxc.dialects.tsl import TiledStridedLayoutAttr
+    from snaxc.transforms.realize_memref_casts import RealizeMemrefCastsPass
+    mod = parse(global_case_text(c))
+    RealizeMemrefCastsPass().apply(_xctx(), mod)
+    mod.verify()
+    globs = {}
+    for o in mod.walk():
+        if isinstance(o, memref.GlobalOp):
+            globs[o.sym_name.data] = [int(x) for x in o.initial_value.get_values()]
+    row0 = {1: c["r0"], 2: 8 - c["r0"], 3: 0, 4: 8 - c["r0"]}
+    fails, decided = [], 0
+    for o in mod.walk():
+        if o.name != "test.op":
+            continue
+        tag = o.attributes["tag"].value.data
+        try:
+            g, addr = _resolve_global_view(o.operands[0])
+            oty = o.operands[0].type
+            shape = oty.get_shape()
+            mem = globs[g]
+            bad = []
+            for i in range(shape[0]):
+                for j in range(shape[1]):
+                    want = c["vals"][(row0[tag] + i) * 16 + j]
+                    # (a) the view chain (subview offsets applied to the source's layout), and
+                    # (b) the consumer's own operand type (static offsets live in the type: what lowering uses)
+                    # (b) only for identity / strided operand types, whose offset is absolute by MLIR semantics; a
+                    # TSL-typed subview result carries no offset in its type (the pointer comes from the subview)
+                    ways = [("chain", addr([i, j]))]
+                    if not isinstance(oty.layout, TiledStridedLayoutAttr):
+                        ways.append(("type", _type_addr(oty, [i, j])))
+                    for how, a in ways:
+                        got = mem[a] if 0 <= a < len(mem) else None
+                        if got != want:
+                            bad.append([how, i, j, want, got])
+            decided += 1
+            if bad:
+                fails.append(("global-consumer-reads-wrong-elements",
+                              {"consumer_tag": tag, "wrong": len(bad), "first (addressing, i, j, expected, got)": bad[:4]}))
+        except _NoVerdict:
+            continue
+    return fails, decided
+
+
+# ==========================================================================================
 # L1
 # ==========================================================================================
 def correspondence(ctx):
@@ -841,6 +983,16 @@ def search(ctx, deep=False):
         for what, detail in fails:
             raw.append({"what": what, "space_program": sp, "text": sp["text"], "detail": detail, "klass": None})
         ctx.count({"L2spaces": sp["text"][:200]}, True, "l2s" + sp["text"], f"L2:spaces:{sp['vis'] or 'default'}")
+    for _ in range(ctx.n(24, 200)):
+        gc = gen_global_case(rng)
+        try:
+            fails, decided = check_global_case(gc)
+        except Exception as e:
+            fails, decided = [("global-case-pass-raised", {"error": repr(e)[:200]})], 0
+        for what, detail in fails:
+            raw.append({"what": what, "global_case": gc, "text": global_case_text(gc), "detail": detail, "klass": None})
+        ctx.count({"L2global": [gc["r0"], gc["second"]], "consumers_decided": decided}, decided > 0,
+                  f"l2g{gc['r0']}{gc['second']}{decided}", f"L2:global:{gc['second']}:decided{decided}")
     n = ctx.n(160, 4000) * (3 if deep else 1)
     pend = []
     for p in CORPUS + [gen_program(rng) for _ in range(n)]:
